@@ -25,10 +25,44 @@ ASSUMPTIONS = ["type checks enabled (well_typed=True)"]
 NAMES = ["a", "b", "c"]
 
 
+def singular_seg(rng):
+    s = ["name", rng.choice(NAMES)] if rng.random() < 0.6 else ["idx", rng.choice([0, 1, -1])]
+    return ["sel", s] if s[0] == "name" and rng.random() < 0.5 else ["list", s]
+
+
+def nonsingular_seg(rng):
+    """every way a segment can select more than one node"""
+    def atom():
+        return ["name", rng.choice(NAMES)] if rng.random() < 0.5 else ["idx", rng.choice([0, 1, -1])]
+    k = rng.choice(["wild", "bracket-wild", "desc", "slice", "filter", "two", "three", "mixed-wild"])
+    if k == "wild":
+        return [["sel", "wild"]]
+    if k == "bracket-wild":
+        return [["list", "wild"]]
+    if k == "desc":
+        return ["desc", singular_seg(rng)]
+    if k == "slice":
+        return [["list", ["slice", rng.choice([None, 0, 1]), rng.choice([None, 1, 2]), rng.choice([None, 1])]]]
+    if k == "filter":
+        return [["list", ["filter", ["self", ["sel", ["name", "a"]]]]]]
+    if k == "two":
+        return [["list", atom(), atom()]]
+    if k == "three":
+        return [["list", atom(), atom(), atom()]]
+    return [["list", atom(), "wild"]]
+
+
+def nonsingular_query(rng):
+    head = ["self"] if rng.random() < 0.7 else ["root", False]
+    segs = [singular_seg(rng) for _ in range(rng.choice([0, 0, 1, 2]))] + nonsingular_seg(rng) + \
+           [singular_seg(rng) for _ in range(rng.choice([0, 0, 1]))]
+    return head + segs
+
+
 def offending(rng):
     """an ill-typed logical expression (one offence), by construction"""
     q = ["self", ["sel", ["name", "a"]]]
-    nonsing = ["self", ["sel", "wild"]]
+    nonsing = ["self", ["sel", "wild"]] if rng.random() < 0.3 else nonsingular_query(rng)
     kind = rng.choice(["nonsingular-cmp", "logical-fn-cmp", "value-fn-test", "literal-test", "arity", "argkind", "unknown-fn"])
     if kind == "nonsingular-cmp":
         return kind, ["op", rng.choice(Q.CMP_OPS), nonsing, ["lit", 1]] if rng.random() < 0.5 else ["op", "==", ["lit", 1], ["root", False, "desc", ["sel", ["name", "a"]]]]
